@@ -20,6 +20,7 @@ import (
 	"os"
 	"strconv"
 	"testing"
+	"time"
 	"unsafe"
 
 	"github.com/goplus/llgo/runtime/abi"
@@ -59,6 +60,8 @@ type failure struct{ msg string }
 
 func runSeq(c mcfg, seed int64, nops int) (err *failure, stats [4]int) {
 	rngState = uint64(seed)*0x9E3779B97F4A7C15 | 1
+	allocBudget = 256 << 20
+	keepAlive = keepAlive[:0]
 	rnd := rand.New(rand.NewSource(seed))
 	mt := mkMapType(c)
 	step := 0
@@ -273,7 +276,29 @@ func TestZZVerifMapRefinement(t *testing.T) {
 				for s := 0; s < seeds; s++ {
 					total++
 					seed := base*1000003 + int64(s) + 1
-					f, stats := runSeq(c, seed, nops)
+					type res struct {
+						f     *failure
+						stats [4]int
+					}
+					ch := make(chan res, 1)
+					go func() {
+						f, stats := runSeq(c, seed, nops)
+						ch <- res{f, stats}
+					}()
+					var f *failure
+					var stats [4]int
+					select {
+					case r := <-ch:
+						f, stats = r.f, r.stats
+					case <-time.After(20 * time.Second):
+						// a map operation does not return (e.g. a cyclic overflow chain): the
+						// stuck goroutine cannot be stopped, so report and end the run here
+						bad++
+						fmt.Printf("ZZFAIL cfg=%s seed=%d a map operation did not return within 20 s (sequence abandoned, run ended early)\n", c.name, seed)
+						fmt.Printf("ZZSTATS iterations=%d started-while-growing=%d insertion-bursts=%d clears=%d\n", st[0], st[1], st[2], st[3])
+						fmt.Printf("ZZBOUNDED maprefine K=%d lists=%d failures=%d\n", nops, total, bad)
+						os.Exit(1)
+					}
 					for i := range st {
 						st[i] += stats[i]
 					}
